@@ -299,7 +299,7 @@ func (x *rInst) tryLock() (bool, string) {
 }
 
 func (x *rInst) probes() []probe {
-	return []probe{{"GET", "/ping", 200}, {"GET", "/v1/replicas", 200}, {"GET", "/v1/replicas/1", 200}, {"GET", "/v1/stats", 200}, {"GET", "/v1/replicas/1/volusage", 200}, {"GET", "/v1", 200}}
+	return []probe{{"GET", "/v1/replicas/1", 200}, {"GET", "/v1/replicas", 200}, {"GET", "/v1/stats", 200}, {"GET", "/ping", 200}}
 }
 
 func (x *rInst) readProbe() (bool, error) {
@@ -465,15 +465,16 @@ type cInst struct {
 	fx    Facts
 }
 
-func newControllerInst(class string) (*cInst, error) {
+func newControllerInst(class string, real bool) (*cInst, error) {
 	setup()
 	resetGlobals()
 	evs, ok := controllerClassEvents[class]
 	if !ok {
 		return nil, fmt.Errorf("unknown controller state class %q", class)
 	}
-	cfg := &eb.Cfg{RF: 3, N: 4, Drain: true}
-	x := &cInst{class: class, cl: eb.NewCluster(cfg, scratch)}
+	cfg := &eb.Cfg{RF: 3, N: 4, Drain: true, Real: real}
+	instSeq++
+	x := &cInst{class: class, cl: eb.NewCluster(cfg, filepath.Join(scratch, fmt.Sprintf("c%d", instSeq)))}
 	resetLogging()
 	for _, ev := range evs {
 		x.cl.Step(ev)
@@ -564,7 +565,7 @@ func (x *cInst) state() string {
 }
 
 func (x *cInst) probes() []probe {
-	ps := []probe{{"GET", "/v1/volumes", 200}, {"GET", "/v1/replicas", 200}, {"GET", "/v1/volumes/" + b64("vol"), 200}, {"GET", "/v1/checkpoint", 200}, {"GET", "/v1", 200}}
+	ps := []probe{{"GET", "/v1/replicas", 200}, {"GET", "/v1/volumes", 200}, {"GET", "/v1/volumes/" + b64("vol"), 200}, {"GET", "/v1/checkpoint", 200}}
 	v := x.cl.View()
 	if len(v.Replicas) > 0 {
 		ps = append(ps, probe{"GET", "/v1/replicas/" + b64(v.Replicas[0].Address), 200})
@@ -612,7 +613,7 @@ func (x *cInst) destroy(poisoned bool) {
 	resetGlobals()
 }
 
-func newInst(side, class string) (instance, error) {
+func newInst(side, class string, real bool) (instance, error) {
 	if side == "R" {
 		x, err := newReplicaInst(class)
 		if err != nil {
@@ -623,7 +624,7 @@ func newInst(side, class string) (instance, error) {
 		}
 		return x, nil
 	}
-	x, err := newControllerInst(class)
+	x, err := newControllerInst(class, real)
 	if err != nil {
 		if x != nil {
 			x.destroy(false)
